@@ -31,11 +31,25 @@ SUPPORTED = {
     "nasim.envs.environment.NASimEnv.generative_step": "env_step",
     "nasim.envs.state.State.get_initial_observation": "state_get_initial_observation",
     "nasim.envs.environment.NASimEnv.get_action_mask": "env_action_mask",
+    "nasim.envs.host_vector.HostVector._update_vector_idxs": "layout",
+    "nasim.envs.host_vector.HostVector._initialize": "layout",
+    "nasim.envs.host_vector.HostVector.vectorize": "layout",
+    "nasim.envs.state.State.tensorize": "layout",
+    "nasim.envs.state.State.generate_initial_state": "layout",
+    "nasim.scenarios.scenario.Scenario.get_state_dims": "scn_scalar",
+    "nasim.scenarios.scenario.Scenario.get_observation_dims": "scn_scalar",
+    "nasim.scenarios.scenario.Scenario.get_action_space_size": "scn_scalar",
+    "nasim.scenarios.scenario.Scenario.host_value_bounds": "scn_scalar",
+    "nasim.scenarios.scenario.Scenario.host_discovery_value_bounds": "scn_scalar",
+    "nasim.envs.network.Network.get_total_sensitive_host_value": "scn_scalar",
+    "nasim.envs.network.Network.get_total_discovery_value": "scn_scalar",
+    "nasim.envs.environment.NASimEnv.get_score_upper_bound": "scn_scalar",
+    "nasim.envs.environment.NASimEnv.goal_reached": "scn_scalar",
 }
 
 # harnesses whose clauses are evaluated natively by an oracle in replay/dyn_replay.py (environment-level functions: the
 # engine-side contract speaks about an abstract action space / contract-havoced callees that have no concrete lifting)
-NATIVE_ORACLE = {"env_step", "env_action_mask"}
+NATIVE_ORACLE = {"env_step", "env_action_mask", "layout", "scn_scalar"}
 
 
 def random_scenario(rng, cfg):
@@ -67,7 +81,14 @@ def random_scenario(rng, cfg):
     nsens = cfg.get("n_sens", 1)
     sens = [list(a) for a in rng.sample(addrs, min(nsens, len(addrs)))]
     b0 = cfg.get("bounds", (nS + 1, max(subs[1:]) + 1))
+    cfgs = {"os": [], "srv": [], "proc": []}
+    for _ in addrs:
+        k = rng.randrange(n_os)
+        cfgs["os"].append([j == k for j in range(n_os)])
+        cfgs["srv"].append([rng.random() < 0.5 for _j in range(n_srv)])
+        cfgs["proc"].append([rng.random() < 0.5 for _j in range(n_proc)])
     return {"subnets": subs, "topology": topo, "firewall": fw, "host_firewall": hfw, "bounds": [int(b0[0]), int(b0[1])],
+            "cfg": cfgs,
             "n_os": n_os, "n_srv": n_srv, "n_proc": n_proc, "addrs": [list(a) for a in addrs], "sensitive": sens,
             "hval": [rng.choice([0.0, 1.0, 5.0, -3.0, 2.5]) for _ in addrs],
             "dval": [rng.choice([0.0, 1.0, 2.0]) for _ in addrs]}
@@ -119,6 +140,10 @@ def random_input(rng, harness, variant, cfg):
     sc = random_scenario(rng, cfg)
     rep = {"harness": harness, "scenario": sc, "draws": []}
     kinds = ["Exploit", "PrivilegeEscalation", "ServiceScan", "OSScan", "SubnetScan", "ProcessScan", "NoOp"]
+    if harness in ("layout", "scn_scalar"):
+        rep["tensor"] = [random_row(rng, sc, i) for i in range(len(sc["addrs"]))]
+        rep["host_index"] = rng.randrange(len(sc["addrs"]))
+        return rep
     if harness == "hv_perform_action":
         rep["vector"] = random_row(rng, sc, rng.randrange(len(sc["addrs"])))
         rep["action"] = random_action(rng, sc, variant)
@@ -384,6 +409,8 @@ def run_fallback(repo, c, variant, cfg, tree, samples, seed=0):
     harness = SUPPORTED[c.qualname]
     rng = random.Random(hash((c.qualname, variant, seed)) & 0xffffffff)
     reps = [random_input(rng, harness, variant, cfg) for _ in range(samples)]
+    for rep in reps:
+        rep["qualname"], rep["variant"] = c.qualname, variant
     os.makedirs(os.path.join(VERIF, "replays"), exist_ok=True)
     bpath = os.path.join(VERIF, "replays", f"rt-{harness}-{variant.replace(chr(47), chr(95))}-{os.getpid()}.json")
     with open(bpath, "w") as f:
@@ -392,7 +419,7 @@ def run_fallback(repo, c, variant, cfg, tree, samples, seed=0):
     p = subprocess.run([sys.executable, os.path.join(VERIF, "replay", "dyn_replay.py"), "--batch-actual", bpath], env=env,
                        stdout=subprocess.PIPE, stderr=subprocess.STDOUT, text=True, timeout=1800)
     os.unlink(bpath)
-    actuals = json.loads(p.stdout[p.stdout.index("["):])
+    actuals = json.loads(p.stdout[p.stdout.index("@@JSON@@") + 8:])
     out = {"samples": samples, "valid": 0, "failures": []}
     seen = set()
     for rep, act in zip(reps, actuals):
